@@ -167,6 +167,13 @@ pub fn single_faults(spec: &DocSpec) -> Vec<HFault> {
     targets.push(undefined);
     for (ri, r) in spec.revisions.iter().enumerate() {
         for (&num, slot) in &r.slots {
+            // the whole object replaced by a reference (an indirect object may itself be a reference):
+            // to itself, to every other object, to object 0 and to an undefined number
+            if matches!(slot, Slot::Direct { body: Body::Plain(_), .. } | Slot::Compressed { .. }) {
+                for &t in &targets {
+                    out.push(HFault::Retarget { site: Site { rev: ri, num, path: vec![] }, target: t });
+                }
+            }
             if let Some(v) = slot_val(slot) {
                 let (mut refs, mut nums) = (vec![], vec![]);
                 collect(&v, &mut vec![], &mut refs, &mut nums);
